@@ -18,7 +18,11 @@ import os
 import shutil
 import tempfile
 
+import sys
+
 import common
+sys.path.insert(0, os.path.join(common.VERIF, "tx"))
+import coveradj as txadj
 
 ALGOS = ["Hopcroft-Karp", "Hungarian"]
 NSYM = 5            # index into c20_bond.SYMS; 0 = identity
@@ -411,6 +415,7 @@ def run_impl_batches(ctx, script, payloads, par):
 def run(ctx):
     quick = ctx.tier != "thorough"
     ctx.trusted += [
+        "translator tx/coveradj.py (python ast, fail-closed): the statements of _decompose_graph that build `bigraph` must append the plain slice M.indices[M.indptr[i]:M.indptr[i+1]] (no dtype cast / relabelling); rendered as Gen/CoverAdj.v, for which C20_bigraph_is_incidence_matrix is proved with unbounded nat labels",
         "hand-written model coq/Model/Cover.v of bipartite_matching.py (augment, max_bipartite_matching2, new_konig, csr shape) and of the orientation choice in _decompose_graph; tied to the code by the correspondence below, not by a translator",
         "correspondence harness/c20.py + harness/impl/c20_cover.py: logger wrapped around bipartite_matching.maximum_bipartite_matching (captures / replaces SciPy's matching); covers compared as vertex sets",
         "SciPy maximum_bipartite_matching is NOT trusted: its table is a witness checked by valid_matching (proved equivalent to is_matching); by C20_hk_returns_iff_maximum new_konig returns iff that table is a maximum matching",
@@ -421,6 +426,15 @@ def run(ctx):
         "graphs are adjacency lists with at least one U vertex (the zero-row list [] cannot describe a graph with V vertices and is rejected by both algorithms)",
         "set.pop() order in new_konig is arbitrary: all theorems quantify over every schedule (is_rot)",
     ]
+    # ---- 0: translator (construction of `bigraph` in _decompose_graph -> Gen/CoverAdj.v), fail-closed
+    tx_err = None
+    try:
+        text, _ = txadj.main(common.REPO)
+        ctx.regen("Gen/CoverAdj.v", text)
+    except Exception as e:      # noqa: BLE001  (any deviation of the source from the expected shape)
+        tx_err = "%s: %s" % (type(e).__name__, e)
+    ctx.obligations.append({"name": "translator tx/coveradj.py: bigraph = plain index slices of the sparse matrix (Gen/CoverAdj.v)",
+                            "file": "Gen/CoverAdj.v", "ok": tx_err is None, "assumptions": [] if tx_err is None else None})
     # ---- 1/2: Coq
     ok_build, log = ctx.coq_make(["Proofs/CoverProofs.vo"])
     ok_props = False
@@ -692,7 +706,47 @@ def run(ctx):
     hist["scale_probe"] = dict(scale_payload, hungarian_recursion_errors=len(recursion_hit), other_failures=len(scale_bad),
                                hopcroft_karp_runs_ok=sum(1 for r in (res_s or {}).get("res", []) if r["algo"] == "Hopcroft-Karp" and r["ok"]))
 
+    # ---- large-graph oracle (implementation only): > 2**16 distinct partial terms on the larger side of a cut,
+    #      entries placed so that folding labels modulo 2**16 would change the minimum cover
+    def large_case(shape, algo, ngadgets):
+        npair = 65536 + rng.randint(40, 200)
+        js = rng.sample(range(npair - 65536), ngadgets)
+        extra = []
+        for g, j in enumerate(js):          # rows R_{2g+1}, R_{2g+2}:  B x j, B x (j + 2^16), C x (j + 2^16)
+            extra += [[2 * g + 1, j], [2 * g + 1, j + 65536], [2 * g + 2, j + 65536]]
+        return {"shape": shape, "npair": npair, "n1": 260, "extra": extra, "algo": algo}
+    lcases = [large_case("right", "Hopcroft-Karp", 1), large_case("right", "Hungarian", 1),
+              large_case("left", "Hopcroft-Karp", 1), large_case("left", "Hungarian", 2)]
+    if not quick:
+        lcases += [large_case(rng.choice(["right", "left"]), rng.choice(ALGOS), rng.randint(1, 5)) for _ in range(12)]
+    louts = ctx.impl_par("c20_large.py", [{"cases": [c]} for c in lcases], timeout=900, par=4 if quick else 12)
+    large_bad = []
+    large_stats = {"cases": len(lcases), "max_labels": 0, "decompose_steps_checked": 0, "wall_max": 0.0}
+    for c, (rc_l, res_l, out_l) in zip(lcases, louts):
+        if res_l is None:
+            flag("harness-impl", {"what": "large-graph runner failed", "out": (out_l or "")[-1000:]})
+            continue
+        r = res_l["res"][0]
+        ev += 1
+        large_stats["max_labels"] = max(large_stats["max_labels"], max(r["nL"] + r["nR"]))
+        large_stats["decompose_steps_checked"] += len(r.get("decompose_steps") or [])
+        large_stats["wall_max"] = max(large_stats["wall_max"], r.get("wall", 0.0))
+        if r["problems"]:
+            large_bad.append({"case": c, "bond_dims": r.get("bd"), "expected_min_cover": r["exp"], "nL": r["nL"], "nR": r["nR"],
+                              "missing_terms": r.get("missing"), "problems": r["problems"][:4], "decompose_steps": r.get("decompose_steps")})
+    hist["large_graph"] = large_stats
+
     # ---- report
+    if tx_err is not None:
+        ctx.violation("translator-coveradj", "translator tx/coveradj.py: the construction of `bigraph` in _decompose_graph is no longer the plain index slice of the sparse matrix; C20_bigraph_is_incidence_matrix / C20_decompose_graph_cover_touches_every_entry no longer describe the code",
+                      {"error": tx_err}, found=False)
+    if large_bad:
+        src = open(os.path.join(common.VERIF, "harness", "impl", "c20_large.py")).read()
+        src = src[:src.rindex("main()")]
+        b0 = large_bad[0]
+        repro = src + "\nr = run_case(%r)\nprint({k: r.get(k) for k in ('bd', 'exp', 'nL', 'nR', 'missing', 'problems')})\nsys.exit(1 if r['problems'] else 0)\n" % (b0["case"],)
+        ctx.violation("large-graph", "oracle: with more than 2**16 distinct partial terms on one side of a cut the cover used by _decompose_graph is not a minimum cover of the REAL term-incidence matrix (bond dimension != maximum matching, uncovered entries / lost terms, or adjacency lists differing from the sparse matrix)",
+                      {"count": len(large_bad), "first": large_bad[:2]}, found=True, repro=repro)
     if not (ok_build and ok_props):
         names = ", ".join(o["name"] for o in ctx.obligations if not o["ok"])
         ctx.violation("coq-proofs", "theorem(s) of Props/C20.v no longer check: " + names,
@@ -751,4 +805,4 @@ def run(ctx):
             "samples": samples[:3], "exhaustive": True,
             "exhaustive_scope": "all %d adjacency lists with 1..%d rows over V={0,1,2,3} (= all bipartite graphs up to %dx4 up to trailing isolated V vertices, which the adjacency-list format cannot express)" % (n_exh, 3 if quick else 4, 3 if quick else 4),
             "input_distribution": hist, "bond_oracle": bond_stats,
-            "cases": {"exhaustive": n_exh, "random": n_rand, "degraded_witness": n_inj, "malformed_witness": n_mal, "operators": n_bond, "decimal_operators": n_dec}}
+            "cases": {"exhaustive": n_exh, "random": n_rand, "degraded_witness": n_inj, "malformed_witness": n_mal, "operators": n_bond, "decimal_operators": n_dec, "large_graph_operators": len(lcases)}}
